@@ -3,6 +3,7 @@ import GlueVerif.Lemmas.C02Table
 import GlueVerif.Lemmas.C02Total
 import GlueVerif.Lemmas.C02LoadLate
 import GlueVerif.Lemmas.C02LoadCb
+import GlueVerif.Lemmas.C02Records
 import GlueVerif.Generated.C02Registry
 /-!
 # C02 — a saved session restores to an observationally equivalent session
@@ -53,116 +54,199 @@ theorem old_label_reads_as_literal :
     isLiteralStr (safeLabel [(1, ['s', 't', '_'])] ['s', 't', '_']) = false := by
   decide
 
-/-- **roundtrip_framework** (acyclic graphs with arbitrary sharing; plain loaders; named references).
-For every heap whose references stay inside the heap, whose classes have field-faithful pairs with
-plain (non-generator, callback-free) loaders, without inlined objects, and whose reference graph is
-acyclic (`rank` strictly decreases along every edge): `serialize` succeeds, and un-serializing its
-output succeeds for every sufficient recursion depth and satisfies the Spec `specRoundTrip` — every
-registered name is restored, distinct names are distinct restored objects (sharing is neither lost
-nor invented), and every restored object has the class, literals, strings and — by name — the
-references of the object that was saved under that name.
+/-- **roundtrip_framework** (acyclic graphs with arbitrary sharing of named objects; inlined records;
+plain loaders).  For every heap whose references stay inside the heap, whose classes have field-faithful
+pairs with plain (non-generator, callback-free) loaders, whose inlined (`context.do`) objects form a
+forest below the named ones (`inlineForestBy idep`: every inline edge strictly decreases `idep ≤ |heap|`,
+an inlined object is inlined exactly once, never referred to by name and not `main` — how glue uses
+`do`: styles, arrays, slices, coordinates inside their owners), and whose graph (named and inline
+edges) is acyclic (`rank` strictly decreases along every edge): `serialize` succeeds, and
+un-serializing its output succeeds for every sufficient recursion depth and satisfies the Spec
+`specRoundTrip` — every registered name is restored, distinct names are distinct restored objects
+(sharing is neither lost nor invented), and every restored object has the class, literals, strings,
+— by name — the references, and — structurally, to any depth — the inlined records of the object that
+was saved under that name.
 
-Full statement aimed at (kept for reference; see `props.d/C02/design.md` for what is missing):
-the same for graphs with inlined (`context.do`) sub-objects that form trees, and with cycles all of
-whose edges are read after a generator loader's `yield` (hypothesis `lateCyclesBy rank h`); the
-executable model covers both and is compared with the real code on such graphs by the `fw` family. -/
-theorem roundtrip_framework_partial (h : Heap) (main : Nat) (rank : Nat → Nat)
-    (hwf : wellFormed h main = true) (hno : noOwn h = true) (hearly : allEarly h = true)
+(The proof does not use "inlined exactly once / never by name": on other graphs the trip also
+satisfies the Spec, but there the Spec's structural comparison of inlined objects no longer means
+isomorphism — python loses the sharing — so they are deliberately outside the statement.) -/
+theorem roundtrip_framework (h : Heap) (main : Nat) (rank idep : Nat → Nat)
+    (hwf : wellFormed h main = true) (hin : inlineForestBy idep h main = true) (hearly : allEarly h = true)
     (hacyc : acyclicBy rank h = true) :
     ∃ st T, serialize h main = .ok (st, T) ∧
       ∀ fuel, rank main + 1 < fuel →
         ∃ ls i, unserialize T fuel = (ls, .ok (.ref i)) ∧ specRoundTrip h st.reg ls = true := by
   obtain ⟨hm, hw⟩ := wellFormed_iff h main hwf
-  obtain ⟨st, T, hs⟩ := serialize_total h main (noOwn_iff h hno) hm hw
+  have F := inlineForestBy_iff idep h main hin
+  obtain ⟨st, T, hs⟩ := serialize_total h main hm hw (fun o ob hob f hf p hp => (F.edge o ob hob f hf p hp).1) F.depth
   exact ⟨st, T, hs, fun fuel hf =>
-    roundtrip_acyclic_core rank (noOwn_iff h hno) (allEarly_iff h hearly) (acyclicBy_iff rank h hacyc) hs fuel hf⟩
+    roundtrip_acyclic_core rank (allEarly_iff h hearly) (acyclicBy_iff rank h hacyc) hs fuel hf⟩
 
-/-- **roundtrip_framework with cycles** (generator loaders = two-phase construction).  Classes may read
-fields after their loader's `yield` (`late`): the object is registered first and completed afterwards,
-which is what lets `GlueUnSerializer` load cyclic graphs (glue's Data ↔ GroupedSubset ↔ SubsetGroup).
-Hypothesis `lateCyclesBy rank h`: early edges strictly decrease `rank`, late edges do not increase it —
-i.e. every cycle consists of late edges only.  Then, as above, `serialize` succeeds and un-serializing
-its output succeeds (for every recursion depth above the number of registered objects + 1) and satisfies
-`specRoundTrip`: same shape, literals, strings, sharing and cycles, by name.
-
-Still open (hence `_partial`): inlined (`context.do`) sub-objects and `__setgluestate_callback__`
-fields; see `props.d/C02/design.md` for the exact hypotheses under which they are expected to hold. -/
-theorem roundtrip_framework_cycles_partial (h : Heap) (main : Nat) (rank : Nat → Nat)
-    (hwf : wellFormed h main = true) (hno : noOwn h = true) (hcb : noCb h = true)
+/-- **roundtrip_framework with cycles** (generator loaders = two-phase construction; inlined records).
+Classes may read fields after their loader's `yield` (`late`): the object is registered first and
+completed afterwards, which is what lets `GlueUnSerializer` load cyclic graphs (glue's Data ↔
+GroupedSubset ↔ SubsetGroup).  Hypotheses: `lateCyclesBy rank h` — early edges (named or inline)
+strictly decrease `rank`, late edges do not increase it, i.e. every cycle consists of late edges only —
+and `inlineForestBy idep h main` as above (the class of an inlined object has a plain loader; an
+inlined record may sit in an early or in a late field of its owner).  Then `serialize` succeeds and
+un-serializing its output succeeds for every recursion depth above
+`(registered names + 1) * (|heap| + 1)` (one level per name, times the inline nesting between two
+names) and satisfies `specRoundTrip`: same shape, literals, strings, sharing, cycles and inlined records. -/
+theorem roundtrip_framework_cycles (h : Heap) (main : Nat) (rank idep : Nat → Nat)
+    (hwf : wellFormed h main = true) (hin : inlineForestBy idep h main = true) (hcb : noCb h = true)
     (hcyc : lateCyclesBy rank h = true) :
     ∃ st T, serialize h main = .ok (st, T) ∧
-      ∀ fuel, st.reg.length + 1 < fuel →
+      ∀ fuel, (st.reg.length + 1) * (h.length + 1) < fuel →
         ∃ ls i, unserialize T fuel = (ls, .ok (.ref i)) ∧ specRoundTrip h st.reg ls = true := by
   obtain ⟨hm, hw⟩ := wellFormed_iff h main hwf
-  obtain ⟨st, T, hs⟩ := serialize_total h main (noOwn_iff h hno) hm hw
+  have F := inlineForestBy_iff idep h main hin
+  have hedge : ∀ (o : Nat) (ob : Obj), h[o]? = some ob → ∀ f ∈ ob.fields, ∀ p, f.val = Val.own p → idep p < idep o :=
+    fun o ob hob f hf p hp => (F.edge o ob hob f hf p hp).1
+  obtain ⟨st, T, hs⟩ := serialize_total h main hm hw hedge F.depth
   obtain ⟨hE, hL⟩ := lateCyclesBy_iff rank h hcyc
   exact ⟨st, T, hs, fun fuel hf =>
-    roundtrip_late_core rank (noOwn_iff h hno) (noCb_phases h hcb) hE hL hs fuel hf⟩
+    roundtrip_late_core rank idep (noCb_phases h hcb) hE hL F.depth hedge
+      (fun o ob hob f hf p hp obp hobp => (F.inl o ob hob f hf p hp obp hobp).1) hs fuel hf⟩
 
-/-- **roundtrip_framework with cycles and deferred callbacks** — all three mechanisms of
-`GlueUnSerializer.object`: memo table, generator loaders and `__setgluestate_callback__`
-(for the `_try_callbacks` repaired by fix F5i: nothing is tried while an object is under construction).
-Hypotheses (decidable): named references only (`noOwn`); no class has both post-`yield` and callback
-fields (`noGenCb`: python never registers the callback of a generator loader); `main`'s loader is a plain
-function (`mainPlain`; glue: `DataCollection`, `Application`); early edges strictly decrease `rank`, late
-edges do not increase it, callback edges are unconstrained (`cyclesBy` — cycles may run through late and
-callback edges); every object hangs below `main` through non-callback references (`coveredBy dist`; glue:
-`SliceSubsetState.reference_data` is a dataset of the collection).  Then `serialize` succeeds, loading
-succeeds, every callback completes by a memo-table hit once `main` is restored, and the Spec holds:
-nothing is left pending, shape / literals / strings / sharing / cycles are preserved by name.
-
-Still open (hence `_partial`): inlined (`context.do`) sub-objects. -/
-theorem roundtrip_framework_callbacks_partial (h : Heap) (main : Nat) (rank dist : Nat → Nat)
-    (hwf : wellFormed h main = true) (hno : noOwn h = true) (hgc : noGenCb h = true)
+/-- **roundtrip_framework with cycles, deferred callbacks and inlined records** — all mechanisms of
+`GlueSerializer.id/do` and `GlueUnSerializer.object`: name registry and inlined records, memo table,
+generator loaders and `__setgluestate_callback__` (for the `_try_callbacks` repaired by fix F5i: nothing
+is tried while an object is under construction).  Hypotheses (decidable): inlined objects form a forest
+of plain classes and are never read in a callback (`inlineForestBy`); no class has both post-`yield` and
+callback fields (`noGenCb`: python never registers the callback of a generator loader); `main`'s loader
+is a plain function (`mainPlain`; glue: `DataCollection`, `Application`); early edges strictly decrease
+`rank`, late edges do not increase it, callback edges are unconstrained (`cyclesBy` — cycles may run
+through late and callback edges); every object hangs below `main` through non-callback edges
+(`coveredBy dist`; glue: `SliceSubsetState.reference_data` is a dataset of the collection).  Then
+`serialize` succeeds, loading succeeds, every callback completes by a memo-table hit once `main` is
+restored, and the Spec holds: nothing is left pending, shape / literals / strings / sharing / cycles /
+inlined records are preserved. -/
+theorem roundtrip_framework_callbacks (h : Heap) (main : Nat) (rank dist idep : Nat → Nat)
+    (hwf : wellFormed h main = true) (hin : inlineForestBy idep h main = true) (hgc : noGenCb h = true)
     (hmp : mainPlain h main = true) (hcyc : cyclesBy rank h = true) (hcov : coveredBy dist h main = true) :
     ∃ st T, serialize h main = .ok (st, T) ∧
-      ∀ fuel, st.reg.length + 2 < fuel →
+      ∀ fuel, (st.reg.length + 1) * (h.length + 1) + 1 < fuel →
         ∃ ls i, unserialize T fuel = (ls, .ok (.ref i)) ∧ specRoundTrip h st.reg ls = true := by
   obtain ⟨hm, hw⟩ := wellFormed_iff h main hwf
-  obtain ⟨st, T, hs⟩ := serialize_total h main (noOwn_iff h hno) hm hw
+  have F := inlineForestBy_iff idep h main hin
+  obtain ⟨st, T, hs⟩ := serialize_total h main hm hw (fun o ob hob f hf p hp => (F.edge o ob hob f hf p hp).1) F.depth
   obtain ⟨hE, hL⟩ := cyclesBy_iff rank h hcyc
   exact ⟨st, T, hs, fun fuel hf =>
-    roundtrip_cb_core rank dist (noOwn_iff h hno) (noGenCb_iff h hgc) hE hL (mainPlain_iff h main hmp)
-      (coveredBy_iff dist h main hcov) hs fuel hf⟩
+    roundtrip_cb_core rank idep dist (noGenCb_iff h hgc) hE hL (mainPlain_iff h main hmp)
+      (coveredBy_iff dist h main hcov) F.depth F.edge F.inl hs fuel hf⟩
 
 /-- The hypotheses are satisfiable by a non-trivial graph: a diamond with a shared leaf, clashing and
-literal-looking labels (main → a, b; a → leaf; b → leaf, a). -/
+literal-looking labels (main → a, b; a → leaf; b → leaf, a), an inlined record below `a` that itself
+inlines another one and refers to the shared leaf by name. -/
 def demoHeap : Heap := [
   { cls := 0, label := ['m'], fields := [⟨.early, .ref 1⟩, ⟨.early, .ref 2⟩, ⟨.early, .str ['s', 't', '_', '_', 'x']⟩] },
-  { cls := 1, label := ['s', 't', '_'], fields := [⟨.early, .ref 3⟩, ⟨.early, .lit 7⟩] },
+  { cls := 1, label := ['s', 't', '_'], fields := [⟨.early, .ref 3⟩, ⟨.early, .lit 7⟩, ⟨.early, .own 4⟩] },
   { cls := 1, label := ['s', 't', '_'], fields := [⟨.early, .ref 3⟩, ⟨.early, .ref 1⟩] },
-  { cls := 2, label := ['s', 't', '_', '_', '0'], fields := [] } ]
+  { cls := 2, label := ['s', 't', '_', '_', '0'], fields := [] },
+  { cls := 3, label := ['s'], fields := [⟨.early, .own 5⟩, ⟨.early, .ref 3⟩] },
+  { cls := 4, label := ['s'], fields := [⟨.early, .lit 1⟩] } ]
 
-example : wellFormed demoHeap 0 = true ∧ noOwn demoHeap = true ∧ allEarly demoHeap = true ∧
-    acyclicBy (height demoHeap 4) demoHeap = true := by decide
+example : wellFormed demoHeap 0 = true ∧ inlineForestBy (ownHeight demoHeap 7) demoHeap 0 = true ∧
+    allEarly demoHeap = true ∧ acyclicBy (height demoHeap 7) demoHeap = true := by decide +kernel
 
 example : (match serialize demoHeap 0 with
     | .ok (st, _) => st.reg.map (·.2)
     | .error _ => []) =
     [mainName, ['s', 't', '_'], ['_', 's', 't', '_', '_', '0'], ['_', 's', 't', '_', '_', '0', '_', '0']] := by decide
 
-/-- A cyclic graph inside the hypothesis of `roundtrip_framework_cycles_partial`: main → a (early),
-a → b (late), b → a (late), b → b (late). -/
+/-- A cyclic graph inside the hypothesis of `roundtrip_framework_cycles`: main → a (early),
+a → b (late), b → a (late), b → b (late); `a` inlines a record in a late field, which refers back to `b`. -/
 def demoCycle : Heap := [
   { cls := 0, label := ['m'], fields := [⟨.early, .ref 1⟩] },
-  { cls := 1, label := ['a'], fields := [⟨.late, .ref 2⟩, ⟨.early, .lit 3⟩] },
-  { cls := 1, label := ['a'], fields := [⟨.late, .ref 1⟩, ⟨.late, .ref 2⟩] } ]
+  { cls := 1, label := ['a'], fields := [⟨.late, .ref 2⟩, ⟨.early, .lit 3⟩, ⟨.late, .own 3⟩] },
+  { cls := 1, label := ['a'], fields := [⟨.late, .ref 1⟩, ⟨.late, .ref 2⟩] },
+  { cls := 2, label := ['s'], fields := [⟨.early, .lit 5⟩] } ]
 
-example : wellFormed demoCycle 0 = true ∧ noOwn demoCycle = true ∧ noCb demoCycle = true ∧
-    lateCyclesBy (candidateRank demoCycle) demoCycle = true := by decide
+example : wellFormed demoCycle 0 = true ∧ inlineForestBy (ownHeight demoCycle 5) demoCycle 0 = true ∧
+    noCb demoCycle = true ∧ lateCyclesBy (candidateRank demoCycle) demoCycle = true := by decide
 
-/-- Inside the hypothesis of `roundtrip_framework_callbacks_partial`: the shape of a glue session with a
+/-- Inside the hypothesis of `roundtrip_framework_callbacks`: the shape of a glue session with a
 slice selection — main → d (early), main → s (early), d → s (late), s → d (late) is the Data ↔ subset cycle,
-s → d by callback is `SliceSubsetState.reference_data`, and a callback edge back to `main`. -/
+s → d by callback is `SliceSubsetState.reference_data`, a callback edge back to `main`, and the slices
+of `s` as an inlined record (`context.do(self.slices)`: a tuple that inlines a slice). -/
 def demoCallbacks : Heap := [
   { cls := 0, label := ['m'], fields := [⟨.early, .ref 1⟩, ⟨.early, .ref 3⟩] },
   { cls := 1, label := ['d'], fields := [⟨.late, .ref 2⟩, ⟨.early, .lit 3⟩] },
   { cls := 2, label := ['d'], fields := [⟨.late, .ref 1⟩] },
-  { cls := 3, label := ['d'], fields := [⟨.cb, .ref 1⟩, ⟨.early, .str ['x']⟩, ⟨.cb, .ref 0⟩] } ]
+  { cls := 3, label := ['d'], fields := [⟨.cb, .ref 1⟩, ⟨.early, .own 4⟩, ⟨.cb, .ref 0⟩] },
+  { cls := 4, label := ['t'], fields := [⟨.early, .own 5⟩] },
+  { cls := 5, label := ['s'], fields := [⟨.early, .lit 0⟩, ⟨.early, .lit 2⟩] } ]
 
-example : wellFormed demoCallbacks 0 = true ∧ noOwn demoCallbacks = true ∧ noGenCb demoCallbacks = true ∧
+example : wellFormed demoCallbacks 0 = true ∧ inlineForestBy (ownHeight demoCallbacks 7) demoCallbacks 0 = true ∧
+    noGenCb demoCallbacks = true ∧
     mainPlain demoCallbacks 0 = true ∧ cyclesBy (candidateRank demoCallbacks) demoCallbacks = true ∧
-    coveredBy (candidateDist demoCallbacks 0) demoCallbacks 0 = true := by decide
+    coveredBy (candidateDist demoCallbacks 0) demoCallbacks 0 = true := by decide +kernel
+
+/-! ## Part A' — the per-class pairs -/
+
+open Cls in
+/-- **Every pair of the table is field-faithful** (`Model/C02Records.lean`: 44 classes — the ROIs incl.
+`theta`, the subset states incl. the operator table, the composite states re-created from `_type`,
+`AffineCoordinates`, the link helper records, the built-in containers that occur inlined): the transcribed
+loader, dispatched on `_type`, applied to what the transcribed saver returns rebuilds an object of the
+same class with exactly the same fields — for all field values (the only side condition: an
+`InequalitySubsetState` holds a comparison operator, which its constructor enforces).  The
+transcriptions are tied to the code by the `rec` family. -/
+theorem classes_field_faithful (b : Body) (hwf : b.wf = true) : Body.decode b.encode = some b :=
+  Body.decode_encode b hwf
+
+open Cls in
+/-- **roundtrip_classes.**  A session graph all of whose objects are instances of classes of the table
+(`TGraph`: per object its label, class and typed fields; `erase g` is the framework heap in which every
+object is the list of values its *real saver* hands to `context.id` / `context.do`, read off the
+transcribed record): under the graph-shape hypotheses of `roundtrip_framework_callbacks` — which for
+these classes reduce to: references stay inside the graph, inlined objects form a forest, early
+edges decrease `rank`, everything hangs below `main` by non-callback edges (no class of the table has a
+generator loader: proved, not assumed) — saving succeeds, loading succeeds, the Spec holds for the
+context-mediated values (each comes back: literals and strings unchanged, references by name, inlined
+records structurally), and every object's *own* loader, given back what its saver handed out, rebuilds
+exactly the saved typed fields.  The framework hypothesis "each class's pair is field-faithful" is
+thereby discharged for the table: the round trip is the identity on the observable fields. -/
+theorem roundtrip_classes (g : TGraph) (main : Nat) (rank dist idep : Nat → Nat)
+    (hcls : ∀ t ∈ g, t.body.wf = true)
+    (hwf : wellFormed (erase g) main = true) (hin : inlineForestBy idep (erase g) main = true)
+    (hcyc : cyclesBy rank (erase g) = true) (hcov : coveredBy dist (erase g) main = true) :
+    ∃ st T, serialize (erase g) main = .ok (st, T) ∧
+      ∀ fuel, (st.reg.length + 1) * (g.length + 1) + 1 < fuel →
+        ∃ ls i, unserialize T fuel = (ls, .ok (.ref i)) ∧ specRoundTrip (erase g) st.reg ls = true ∧
+          ∀ (o : Nat) (t : TObj), g[o]? = some t →
+            (erase g)[o]? = some ({ cls := t.body.tag.idx, label := t.label, fields := t.body.fields } : Obj) ∧
+            Body.decode t.body.encode = some t.body := by
+  obtain ⟨st, T, hs, hl⟩ := roundtrip_framework_callbacks (erase g) main rank dist idep hwf hin
+    (erase_noGenCb g) (erase_mainPlain g main) hcyc hcov
+  refine ⟨st, T, hs, fun fuel hf => ?_⟩
+  obtain ⟨ls, i, h1, h2⟩ := hl fuel (by rw [erase_length]; exact hf)
+  exact ⟨ls, i, h1, h2, fun o t hot =>
+    ⟨erase_get hot, Body.decode_encode t.body (hcls t (List.mem_of_getElem? hot))⟩⟩
+
+/-- The hypotheses of `roundtrip_classes` are satisfiable by a non-trivial session fragment:
+`main` = an `AndState` of an `InvertState` of a `RangeSubsetState` and a `RoiSubsetState` whose ROI is a rotated
+rectangle; a `SliceSubsetState` (its slices inlined as a tuple of a slice, its reference data resolved by
+callback) in a `MultiOrState`; the attributes are shared (objects 9, 10: stand-ins of class `list`). -/
+def demoTyped : Cls.TGraph := [
+  { label := ['m'], body := .multiOr ⟨[.obj 1, .obj 6]⟩ },
+  { label := ['A', 'n', 'd', 'S', 't', 'a', 't', 'e'], body := .composite ⟨.and_, .obj 2, .obj 4⟩ },
+  { label := ['I', 'n', 'v'], body := .composite ⟨.invert, .obj 3, .lit Cls.litNone⟩ },
+  { label := ['R'], body := .rangeSt ⟨.lit 7, .lit 9, .obj 9⟩ },
+  { label := ['R'], body := .roiSt ⟨.obj 9, .obj 10, .obj 5, .lit Cls.litNone⟩ },
+  { label := ['s', 't', '_', '_'], body := .rect ⟨2, 3, 4, 5, 6⟩ },
+  { label := ['S'], body := .sliceSt ⟨.obj 7, .obj 10⟩ },
+  { label := ['t'], body := .pyTuple ⟨[.obj 8]⟩ },
+  { label := ['s'], body := .pySlice ⟨0, 2, Cls.litNone⟩ },
+  { label := ['x'], body := .pyList ⟨[]⟩ },
+  { label := ['x'], body := .pyList ⟨[.lit 3]⟩ } ]
+
+example : (∀ t ∈ demoTyped, t.body.wf = true) ∧
+    wellFormed (Cls.erase demoTyped) 0 = true ∧
+    inlineForestBy (ownHeight (Cls.erase demoTyped) 12) (Cls.erase demoTyped) 0 = true ∧
+    cyclesBy (candidateRank (Cls.erase demoTyped)) (Cls.erase demoTyped) = true ∧
+    coveredBy (candidateDist (Cls.erase demoTyped) 0) (Cls.erase demoTyped) 0 = true := by
+  decide +kernel
 
 /-! ## Part B — the generated dispatch table -/
 
